@@ -1,7 +1,11 @@
 /* c09_drv.c - conformance driver for C09 (CPCA super scores = PCA scores of the block-scaled concatenation).
  *
- * usage: c09_drv <out.ndjson> sweep <seed> <count> <nproc>
- *        c09_drv <out.ndjson> one <mseed> <n> <scaling> <npc> <dec> <nproc> <B> w_1 .. w_B
+ * usage: c09_drv <out.ndjson> sweep <seed> <count> <nproc>                         random bulk (the original classes)
+ *        c09_drv <out.ndjson> one <mseed> <n> <scaling> <npc> <dec> <nproc> <B> w_1 .. w_B      (legacy replay: no class features)
+ *        c09_drv <out.ndjson> job <mseed> <n> <scaling> <npc> <dec> <nproc> <B> w_1..w_B <cc> <off> bm_1..bm_B <hist> <sized> <deg>
+ *        c09_drv <out.ndjson> jobs <file>      one "job" argument list per line (the stratified classes planned by the check from CpcaGen.tla)
+ *        c09_drv <out.ndjson> refit <file>     same job lines; for each: CPCA() twice into the SAME model object (history outside the statement
+ *                                              of C09: reported as EXTRA-FINDING only, validated by TraceCpca in a separate trace)
  *
  * Data: the block-scaled concatenation Z (n x sum w_b) is built from a known SVD with a separated leading spectrum
  * (ratios 0.2..0.85, then an unseparated tail) as in c02_drv; block b is X_b = Z_b * sqrt(w_b) + offsets, so for
@@ -10,19 +14,43 @@
  * concatenates, and takes the eigen-decomposition of C'C from a long-double cyclic Jacobi solver cross-checked with
  * LAPACK dsyev (prototype declared here).  The library's own PCA() on C is logged as a second, looser comparison.
  *
+ * Class features of a job (INPUT-CLASSES.md; all inside the quantifier of C09, everything else is Dropped and counted):
+ *   cc    0 none; 1..6 one (sometimes two) CONSTANT variable(s) inside block(s) of width >= 2 at the value 0.1, 1/3, 0.007, 2.5, 0, -0.3
+ *         (x the data decade): K5 (non-representable: sum/n is one ulp off the value) / K8; 7 = a whole block is constant (K8)
+ *   off   0: column offsets 10^(-1..2) x decade (as before); k > 0: offsets +-(1..10) x 10^k x decade, i.e. |mean|/spread ~ 10^k..10^(k+1.5) (K3)
+ *   bm    per-block magnitude: block b (values, offsets, constants) is multiplied by 10^bm_b (K4: blocks in different unit systems)
+ *   hist  1: other CPCA fits + projections run in the SAME process before the fit under test (same shape with other data, then another shape; all
+ *         freed, so with quarantine off their addresses are reused), and after one more foreign fit the data set is fitted again into a fresh
+ *         model (event Again) (K7)
+ *   sized CPCAScorePredictor writes into an output that is already sized and holds other data: 1 same shape, 2 larger, 3 smaller (K7)
+ *   deg   1 two identical objects, 2 a duplicated variable inside a block, 3 the same variable in two blocks (K8: exact ties in the start-column
+ *         rule, rank deficiency)
+ *   nproc forced processor count (hook H2); the slice hook (H3) records how the MT kernel cut every vector length it was given (K6)
+ *
  * Events (integers; 1e-9 units unless stated):
  *   Reset{}
- *   Fit{seed,n,blocks,widths[],scaling,npc,dec,nproc,diffw}
+ *   Fit{seed,n,blocks,widths[],scaling,npc,dec,nproc,diffw,cc,off,bm[],hist,sized,deg}
  *   Spectrum{sig2[]}            eigenvalues of C'C relative to the largest (npc+1 leading)
- *   Shares{share[]}             (ss_b / w_b) / sum: weight of block b in the total variance
+ *   Shares{share[],nz[]}        (ss_b / w_b) / sum: weight of block b in the total variance; nz_b = 1 iff block b has a positive sum of squares
  *   Oracle{err}                 Jacobi vs dsyev, relative to lambda_1 (1e-12 units)
- *   Cpca{k,totalVar,blockVar[],blockRef[],superErr,wnorm,reproj}
+ *   Proj{rows,cols,order,brows,bcols}   shapes CPCAScorePredictor left in its outputs (super scores; block-score tensor order and layer shape)
+ *   Mt{nproc,calls}             calls of the threaded kernel during the CPCA() under test (0 when nproc = 1: the kernel redirects)
+ *   Slices{len,np,fr[],to[]}    first slicing seen for each distinct vector length (only when nproc > 1)
+ *   Iters{its[]}                NIPALS passes per component of the CPCA() under test (hook H4)
+ *   Cpca{k,totalVar,blockVar[],blockRef[],superErr,wnorm,reproj,reprojB}
  *                               total_expvar/100, block_expvar/100, 1-|E_b^(k)|^2/|E_b|^2 recomputed from super scores and
- *                               block loadings, |t - T w|/|t| (1e-12), | |w|-1 | (1e-12), CPCAScorePredictor(training) vs t
- *   Truth{k,dist,tvErr}         super score vs +-oracle score (relative); total_expvar vs lambda_k/trace (relative)
+ *                               block loadings, |t - T w|/|t| (1e-12), | |w|-1 | (1e-12), CPCAScorePredictor(training) vs t, predicted block scores
+ *                               vs the model's block scores (relative to |T_k|)
+ *   Proj2{req,rows,cols,err[]}  a further projection of the training tensor asking for req components (1 when npc >= 2; npc + 3): shape left in the
+ *                               output and, per returned component, the relative distance to the model's super score
+ *   Truth{k,dist,tvErr,blockTruth[]}   super score vs +-oracle score (relative); total_expvar vs lambda_k/trace (relative); share of block b's sum of
+ *                               squares inside the span of the first k ORACLE scores (independent of the model's scores and loadings)
  *   PcaRef{k,varexp,dist}       library PCA on C: its explained variance/100, distance of its score k to the super score
  *   Scale{kexp,terr[],verr[],berr[]}   scaling 0 only: CPCA(2^kexp * X) against CPCA(X): normalised super scores (relative distance),
  *                               total explained variances (relative), block explained variances (absolute, 1e-9) per component
+ *   Again{terr[],verr[],bit}    hist only: the same data fitted again into a fresh model after a foreign fit: normalised super scores (relative
+ *                               distance), total explained variance (relative), bit = 1 iff every stored number is bitwise the same
+ *   Refit{shape,terr[],verr[],berr[]}   refit mode only: second CPCA() into the used model against the first
  *   Abort{rc,why}  Dropped{why}
  * Data magnitude: for scaling 0 (centring only - the one option of the quantifier that does not normalise the magnitude) the decade
  * of the data runs over 1e-8..1e6 and the paired run rescales by an exact power of two between 2^-27 and 2^27; for scalings 1..5 the
@@ -34,9 +62,13 @@
 extern void dsyev_(char *jobz, char *uplo, int *n, double *a, int *lda, double *w, double *work, int *lwork, int *info);
 typedef long double ld;
 #define MAXB 4
+#define MAXW 8
 #define F9_HI 1.2e-2
 
-typedef struct { long mseed; int n, B, w[MAXB], scaling, npc, dec, nproc; long budget; } cjob;
+typedef struct { long mseed; int n, B, w[MAXB], scaling, npc, dec, nproc; int cc, off, bm[MAXB], hist, sized, deg; long budget; } cjob;
+typedef struct { int r; int isconst[MAXB][MAXW]; int nconst; int infeasible; ld sig[64]; } dinfo;
+
+static const double CVAL[8] = { 0.0, 0.1, 1.0 / 3.0, 0.007, 2.5, 0.0, -0.3, 0.0 };
 
 static void rand_orth(vrng *r, int rows, int cols, int ones, ld *Q)
 {
@@ -96,79 +128,255 @@ static double dist_pm(const double *a, const ld *b, int n)
   return sqrt((double)((dp < dm ? dp : dm) / nb));
 }
 
+/* relative distance of two score columns after normalisation, sign-free */
+static double dist_norm(matrix *a, matrix *b, int k, int n)
+{
+  ld na = 0, nb2 = 0; for(int i = 0; i < n; i++){ na += (ld)a->data[i][k] * a->data[i][k]; nb2 += (ld)b->data[i][k] * b->data[i][k]; }
+  if(!(na > 0) || !(nb2 > 0)) return 2.0;
+  na = sqrtl(na); nb2 = sqrtl(nb2); ld dp = 0, dm = 0;
+  for(int i = 0; i < n; i++){ ld x = a->data[i][k] / na, y = b->data[i][k] / nb2; dp += (x - y) * (x - y); dm += (x + y) * (x + y); }
+  return sqrt((double)(dp < dm ? dp : dm));
+}
+
+/* ------------------------------------------------------------------------------------------------ data of one job */
+static tensor *build_data(const cjob *jb, dinfo *di)
+{
+  int n = jb->n, B = jb->B, npc = jb->npc, M = 0, coff[MAXB + 1];
+  for(int b = 0; b < B; b++){ coff[b] = M; M += jb->w[b]; } coff[B] = M;
+  memset(di, 0, sizeof(*di));
+  vrng rg; rg.s = (uint64_t)jb->mseed * 0x9E3779B97F4A7C15ULL + 4242u; for(int i = 0; i < 4; i++) vr_next(&rg);
+  vrng r2; r2.s = (uint64_t)jb->mseed * 0xD1B54A32D192ED03ULL + 977u; for(int i = 0; i < 4; i++) vr_next(&r2);   /* class features: own stream */
+  int wide[MAXB], nwide = 0; for(int b = 0; b < B; b++) if(jb->w[b] >= 2) wide[nwide++] = b;
+  if(jb->cc >= 1 && jb->cc <= 6){
+    if(nwide == 0) di->infeasible = 1;
+    else{
+      int pick = (int)vr_int(&r2, 0, nwide - 1), bc = wide[pick], pos = (int)vr_int(&r2, 0, 2);
+      int jc = pos == 0 ? 0 : pos == 1 ? jb->w[bc] - 1 : (int)vr_int(&r2, 0, jb->w[bc] - 1);
+      di->isconst[bc][jc] = 1; di->nconst = 1;
+      if(nwide >= 2 && vr_int(&r2, 0, 1)){ int b2 = wide[(pick + 1) % nwide]; di->isconst[b2][(int)vr_int(&r2, 0, jb->w[b2] - 1)] = 1; di->nconst = 2; }
+    }
+  }
+  else if(jb->cc == 7){
+    int bc = (int)vr_int(&r2, 0, B - 1);
+    for(int j = 0; j < jb->w[bc]; j++) di->isconst[bc][j] = 1;
+    di->nconst = jb->w[bc];
+  }
+  int Meff = M - di->nconst;
+  int r = (n - 1 < Meff) ? n - 1 : Meff;
+  if(r < 1){ di->infeasible = 1; r = 1; Meff = Meff < 1 ? 1 : Meff; }
+  di->r = r;
+  ld *U = malloc(sizeof(ld) * n * r), *Vc = malloc(sizeof(ld) * Meff * r), *V = calloc((size_t)M * r, sizeof(ld)), *sig = di->sig;
+  rand_orth(&rg, n, r, 1, U); rand_orth(&rg, Meff, r, 0, Vc);
+  { int q = 0; for(int b = 0; b < B; b++) for(int j = 0; j < jb->w[b]; j++){ if(di->isconst[b][j]) continue; if(q < Meff){ for(int k = 0; k < r; k++) V[(coff[b] + j) * r + k] = Vc[q * r + k]; } q++; } }
+  ld scale = powl(10.0L, (ld)jb->dec);
+  int lead = npc + 1 < r ? npc + 1 : r;
+  sig[0] = scale * (ld)(1.0 + 9.0 * vr_unif(&rg));
+  for(int k = 1; k < r && k < 64; k++) sig[k] = sig[k - 1] * (ld)(k < lead ? (0.2 + 0.65 * vr_unif(&rg)) : (0.88 + 0.1 * vr_unif(&rg)));
+  tensor *x; NewTensor(&x, (size_t)B);
+  for(int b = 0; b < B; b++){
+    NewTensorMatrix(x, (size_t)b, (size_t)n, (size_t)jb->w[b]);
+    ld sq = sqrtl((ld)jb->w[b]);
+    double p10 = jb->bm[b] ? pow(10.0, (double)jb->bm[b]) : 1.0;
+    for(int j = 0; j < jb->w[b]; j++){
+      double sgn = (vr_int(&rg, 0, 1) ? 1.0 : -1.0), u = vr_unif(&rg);
+      double off = jb->off > 0 ? sgn * pow(10.0, (double)jb->off) * (1.0 + 9.0 * u) * (double)scale : sgn * pow(10.0, -1.0 + 3.0 * u) * (double)scale;
+      for(int i = 0; i < n; i++){
+        double val;
+        if(di->isconst[b][j]) val = (jb->cc == 7 ? 0.1 * (j + 1) : CVAL[jb->cc]) * (double)scale;
+        else { ld v = 0; for(int k = 0; k < r; k++) v += U[i * r + k] * sig[k] * V[(coff[b] + j) * r + k]; val = (double)(v * sq + off); }
+        x->m[b]->data[i][j] = jb->bm[b] ? val * p10 : val;
+      }
+    }
+  }
+  if(jb->deg == 1){ int i1 = (int)vr_int(&r2, 0, n - 1), i2 = (int)vr_int(&r2, 0, n - 2); if(i2 >= i1) i2++;
+    for(int b = 0; b < B; b++) for(int j = 0; j < jb->w[b]; j++) x->m[b]->data[i2][j] = x->m[b]->data[i1][j]; }
+  else if(jb->deg == 2){
+    if(nwide == 0) di->infeasible = 1;
+    else{ int bc = wide[(int)vr_int(&r2, 0, nwide - 1)], j1 = (int)vr_int(&r2, 0, jb->w[bc] - 1), j2 = (int)vr_int(&r2, 0, jb->w[bc] - 2); if(j2 >= j1) j2++;
+      if(!di->isconst[bc][j1]) for(int i = 0; i < n; i++) x->m[bc]->data[i][j2] = x->m[bc]->data[i][j1]; }
+  }
+  else if(jb->deg == 3){
+    int b1 = (int)vr_int(&r2, 0, B - 1), b2 = (int)vr_int(&r2, 0, B - 2); if(b2 >= b1) b2++;
+    int j1 = (int)vr_int(&r2, 0, jb->w[b1] - 1), j2 = (int)vr_int(&r2, 0, jb->w[b2] - 1);
+    if(!di->isconst[b1][j1]) for(int i = 0; i < n; i++) x->m[b2]->data[i][j2] = x->m[b1]->data[i][j1];
+  }
+  free(U); free(Vc); free(V);
+  return x;
+}
+
+/* ------------------------------------------------------------------------------------------------ hooks: MT slices, iteration counts */
+#define MAXLEN 64
+static long mt_calls = 0; static int mt_np = 0, sl_on = 0;
+static int sl_seen[MAXLEN + 1]; static long sl_fr[MAXLEN + 1][32], sl_to[MAXLEN + 1][32]; static int sl_cnt[MAXLEN + 1];
+static void slice_cb(const char *site, size_t th, size_t from, size_t to, size_t len)
+{
+  (void)site;
+  if(!sl_on) return;
+  if(th == 0) mt_calls++;
+  if(len <= MAXLEN && th < 32){
+    if(th == 0 && sl_seen[len] == 0) sl_seen[len] = 1;            /* recording the first call for this length */
+    else if(th == 0 && sl_seen[len] == 1) sl_seen[len] = 2;
+    if(sl_seen[len] == 1){ sl_fr[len][th] = (long)from; sl_to[len][th] = (long)to; sl_cnt[len] = (int)th + 1; }
+  }
+}
+static void mt_reset(void){ mt_calls = 0; memset(sl_seen, 0, sizeof(sl_seen)); memset(sl_cnt, 0, sizeof(sl_cnt)); }
+static long it_count[64]; static int it_on = 0;
+static void iter_cb(const char *site, size_t comp, double a, double b, double conv)
+{
+  if(it_on && site[0] == 'C' && comp < 64) it_count[comp]++;
+  vrt_iter_cb(site, comp, a, b, conv);
+}
+
+/* a foreign fit in the same process (history): everything is freed again */
+static void warmup(const cjob *jb, int kind)
+{
+  cjob j2 = *jb; dinfo d2;
+  j2.mseed = (jb->mseed + 7919L * kind) & 0x3FFFFFFF; j2.cc = 0; j2.off = 0; j2.deg = 0; for(int b = 0; b < MAXB; b++) j2.bm[b] = 0;
+  if(kind >= 2){
+    j2.n = jb->n + 3 <= 30 ? jb->n + 3 : jb->n - 3;
+    j2.B = jb->B == 4 ? 3 : jb->B + 1;
+    for(int b = 0; b < j2.B; b++) j2.w[b] = b < jb->B ? (jb->w[b] % 8) + 1 : 2;
+    if(kind == 3) for(int b = 0; b < j2.B; b++) j2.w[b] = (j2.w[b] % 8) + 1;
+    int minw = 8; for(int b = 0; b < j2.B; b++) if(j2.w[b] < minw) minw = j2.w[b];
+    if(j2.npc > minw) j2.npc = minw;
+    if(j2.npc > j2.n - 1) j2.npc = j2.n - 1;
+    j2.scaling = (jb->scaling + kind) % 6;
+    if(j2.scaling >= 1 && (j2.dec < 0 || j2.dec > 3)) j2.dec = 1;
+  }
+  tensor *x = build_data(&j2, &d2);
+  CPCAMODEL *m; NewCPCAModel(&m);
+  vrt_install_iter_budget(jb->budget, 0); libsci_verif_iter = iter_cb;
+  CPCA(x, j2.scaling, (size_t)j2.npc, m);
+  matrix *ps; initMatrix(&ps); tensor *pb; initTensor(&pb);
+  CPCAScorePredictor(x, m, (size_t)j2.npc, ps, pb);
+  DelMatrix(&ps); DelTensor(&pb); DelCPCAModel(&m); DelTensor(&x);
+}
+
+static int model_shape_ok(CPCAMODEL *m, int n, int B, int npc)
+{
+  return (int)m->super_scores->col == npc && (int)m->super_scores->row == n && (int)m->super_weights->col == npc && (int)m->super_weights->row == B &&
+         (int)m->block_scores->order == npc && (int)m->block_loadings->order == B && (int)m->total_expvar->size == npc && (int)m->block_expvar->size == npc;
+}
+
+static int bitwise_same(CPCAMODEL *a, CPCAMODEL *b, int n, int B, int npc, const int *w)
+{
+  for(int k = 0; k < npc; k++){
+    for(int i = 0; i < n; i++) if(memcmp(&a->super_scores->data[i][k], &b->super_scores->data[i][k], 8)) return 0;
+    for(int q = 0; q < B; q++) if(memcmp(&a->super_weights->data[q][k], &b->super_weights->data[q][k], 8)) return 0;
+    if(memcmp(&a->total_expvar->data[k], &b->total_expvar->data[k], 8)) return 0;
+    for(int q = 0; q < B; q++){ if(memcmp(&a->block_expvar->d[k]->data[q], &b->block_expvar->d[k]->data[q], 8)) return 0;
+      for(int j = 0; j < w[q]; j++) if(memcmp(&a->block_loadings->m[q]->data[j][k], &b->block_loadings->m[q]->data[j][k], 8)) return 0;
+      for(int i = 0; i < n; i++) if(memcmp(&a->block_scores->m[k]->data[i][q], &b->block_scores->m[k]->data[i][q], 8)) return 0; }
+  }
+  return 1;
+}
+
+static char buf[8192];
+#define BP(...) p += snprintf(buf + p, sizeof(buf) - p, __VA_ARGS__)
+
 static int child(void *arg)
 {
   cjob *jb = (cjob *)arg;
   int n = jb->n, B = jb->B, npc = jb->npc, scaling = jb->scaling, M = 0, coff[MAXB + 1];
   for(int b = 0; b < B; b++){ coff[b] = M; M += jb->w[b]; } coff[B] = M;
+  int plain = (jb->cc == 0 && jb->off == 0 && jb->deg == 0); for(int b = 0; b < B; b++) if(jb->bm[b]) plain = 0;
+  int newcls = !plain || jb->hist || jb->sized;
   vrt_force_nproc((size_t)jb->nproc);
   /* deterministic verdict on non-termination: conforming fits of this sweep need < 2,000 iterations per component (CPCA criterion 1e-18,
    * separated leading spectrum; the unseparated tail is never requested) */
-  vrt_install_iter_budget(jb->budget, 0);
-  vrng rg; rg.s = (uint64_t)jb->mseed * 0x9E3779B97F4A7C15ULL + 4242u; for(int i = 0; i < 4; i++) vr_next(&rg);
-  int r = (n - 1 < M) ? n - 1 : M;
-  ld *U = malloc(sizeof(ld) * n * r), *V = malloc(sizeof(ld) * M * r), *sig = malloc(sizeof(ld) * r);
-  rand_orth(&rg, n, r, 1, U); rand_orth(&rg, M, r, 0, V);
-  ld scale = powl(10.0L, (ld)jb->dec);
-  int lead = npc + 1 < r ? npc + 1 : r;
-  sig[0] = scale * (ld)(1.0 + 9.0 * vr_unif(&rg));
-  for(int k = 1; k < r; k++) sig[k] = sig[k - 1] * (ld)(k < lead ? (0.2 + 0.65 * vr_unif(&rg)) : (0.88 + 0.1 * vr_unif(&rg)));
-  /* tensor of blocks */
-  tensor *x; NewTensor(&x, (size_t)B);
-  for(int b = 0; b < B; b++){
-    NewTensorMatrix(x, (size_t)b, (size_t)n, (size_t)jb->w[b]);
-    ld sq = sqrtl((ld)jb->w[b]);
-    for(int j = 0; j < jb->w[b]; j++){
-      double off = (vr_int(&rg, 0, 1) ? 1.0 : -1.0) * pow(10.0, -1.0 + 3.0 * vr_unif(&rg)) * (double)scale;
-      for(int i = 0; i < n; i++){ ld v = 0; for(int k = 0; k < r; k++) v += U[i * r + k] * sig[k] * V[(coff[b] + j) * r + k]; x->m[b]->data[i][j] = (double)(v * sq + off); }
-    }
-  }
+  vrt_install_iter_budget(jb->budget, 0); libsci_verif_iter = iter_cb;
+  libsci_verif_slice = slice_cb;
+  if(jb->hist){ warmup(jb, 1); warmup(jb, 2); }
+  dinfo di;
+  tensor *x = build_data(jb, &di);
+  if(di.infeasible){ VRT_EMIT("{\"e\":\"Dropped\",\"why\":\"class-infeasible-for-shape\"}"); return 0; }
+  for(int b = 0; b < B; b++) for(int i = 0; i < n; i++) for(int j = 0; j < jb->w[b]; j++)
+    if(fabs(x->m[b]->data[i][j] - 99999999.0) < 1.0){ VRT_EMIT("{\"e\":\"Dropped\",\"why\":\"value-at-missing-code\"}"); return 0; }
+  int r = di.r; ld *sig = di.sig;
   /* reference: blocks preprocessed identically, each divided by sqrt(#variables), concatenated */
-  ld *C = malloc(sizeof(ld) * n * M); ld ssb[MAXB], sstot = 0;
+  ld *C = malloc(sizeof(ld) * n * M); ld ssb[MAXB], sstot = 0; int nzb = 0;
   matrix *Eb[MAXB];
   for(int b = 0; b < B; b++){
     dvector *avg, *scl; initDVector(&avg); initDVector(&scl);
     NewMatrix(&Eb[b], (size_t)n, (size_t)jb->w[b]);
     MatrixPreprocess(x->m[b], scaling, avg, scl, Eb[b]);
-    if(scaling >= 1) for(int j = 0; j < jb->w[b]; j++) if(fabs(scl->data[j]) < F9_HI){ VRT_EMIT("{\"e\":\"Dropped\",\"why\":\"scale-in-guard-zone\"}"); return 0; }
+    if(scaling >= 1) for(int j = 0; j < jb->w[b]; j++) if(!di.isconst[b][j] && fabs(scl->data[j]) < F9_HI){ VRT_EMIT("{\"e\":\"Dropped\",\"why\":\"scale-in-guard-zone\"}"); return 0; }
     ld sq = sqrtl((ld)jb->w[b]); ssb[b] = 0;
     for(int i = 0; i < n; i++) for(int j = 0; j < jb->w[b]; j++){ C[i * M + coff[b] + j] = (ld)Eb[b]->data[i][j] / sq; ssb[b] += (ld)Eb[b]->data[i][j] * Eb[b]->data[i][j]; }
-    if(!(ssb[b] > 0)){ VRT_EMIT("{\"e\":\"Dropped\",\"why\":\"constant-block\"}"); return 0; }
+    if(!(ssb[b] > 0) && jb->cc != 7){ VRT_EMIT("{\"e\":\"Dropped\",\"why\":\"constant-block\"}"); return 0; }
+    if(ssb[b] > 0) nzb++;
     sstot += ssb[b] / jb->w[b];
     DelDVector(&avg); DelDVector(&scl);
   }
+  if(nzb == 0 || !(sstot > 0)){ VRT_EMIT("{\"e\":\"Dropped\",\"why\":\"constant-data\"}"); return 0; }
+  if(jb->cc == 7) for(int b = 0; b < B; b++) if(di.isconst[b][0] && ssb[b] > sstot * 1e-24L){ VRT_EMIT("{\"e\":\"Dropped\",\"why\":\"constant-block-not-zero-after-preprocessing\"}"); return 0; }
   ld *G = malloc(sizeof(ld) * M * M), *Gw = malloc(sizeof(ld) * M * M), *lam = malloc(sizeof(ld) * M), *W = malloc(sizeof(ld) * M * M);
   for(int a = 0; a < M; a++) for(int b2 = 0; b2 < M; b2++){ ld s = 0; for(int i = 0; i < n; i++) s += C[i * M + a] * C[i * M + b2]; G[a * M + b2] = s; Gw[a * M + b2] = s; }
   jacobi_eig(M, Gw, lam, W);
   double *lw = malloc(sizeof(double) * M); int info = lapack_eigvals(M, G, lw);
   double oerr = 0; for(int k = 0; k < M; k++){ double d = fabs((double)(lam[k] - (ld)lw[M - 1 - k])) / (double)lam[0]; if(!(d <= oerr)) oerr = d; }
   if(info) oerr = 1.0;
-  if(scaling == 0) for(int k = 0; k < r; k++){ double d = fabs((double)(lam[k] - sig[k] * sig[k])) / (double)lam[0]; if(!(d <= oerr)) oerr = d; }
+  if(scaling == 0 && plain) for(int k = 0; k < r; k++){ double d = fabs((double)(lam[k] - sig[k] * sig[k])) / (double)lam[0]; if(!(d <= oerr)) oerr = d; }
+  /* the quantifier: npc components exist (no request beyond the numerical rank: C18) and, for the added degenerate classes whose spectrum is not
+   * the constructed one, the requested components are separated enough for the fit to stop within the iteration budget */
+  if(!(lam[npc - 1] > lam[0] * 1e-24L)){ VRT_EMIT("{\"e\":\"Dropped\",\"why\":\"component-beyond-rank\"}"); return 0; }
+  if(newcls) for(int k = 0; k < npc && k + 1 < M; k++) if(lam[k + 1] > 0.9L * lam[k]){ VRT_EMIT("{\"e\":\"Dropped\",\"why\":\"spectrum-not-separated\"}"); return 0; }
   ld trace = 0; for(int k = 0; k < M; k++) trace += lam[k] > 0 ? lam[k] : 0;
-  static char buf[4096]; int p = 0;
-  p += snprintf(buf + p, sizeof(buf) - p, "{\"e\":\"Spectrum\",\"sig2\":[");
-  for(int k = 0; k < npc + 1 && k < M; k++) p += snprintf(buf + p, sizeof(buf) - p, "%s%ld", k ? "," : "", vqs_unit((double)((lam[k] > 0 ? lam[k] : 0) / lam[0]), 1e-9));
-  p += snprintf(buf + p, sizeof(buf) - p, "]}"); VRT_EMIT("%s", buf);
-  p = 0; p += snprintf(buf + p, sizeof(buf) - p, "{\"e\":\"Shares\",\"share\":[");
-  for(int b = 0; b < B; b++) p += snprintf(buf + p, sizeof(buf) - p, "%s%ld", b ? "," : "", vqs_unit((double)((ssb[b] / jb->w[b]) / sstot), 1e-9));
-  p += snprintf(buf + p, sizeof(buf) - p, "]}"); VRT_EMIT("%s", buf);
+  int p = 0;
+  BP("{\"e\":\"Spectrum\",\"sig2\":[");
+  for(int k = 0; k < npc + 1 && k < M; k++) BP("%s%ld", k ? "," : "", vqs_unit((double)((lam[k] > 0 ? lam[k] : 0) / lam[0]), 1e-9));
+  BP("]}"); VRT_EMIT("%s", buf);
+  p = 0; BP("{\"e\":\"Shares\",\"share\":[");
+  for(int b = 0; b < B; b++) BP("%s%ld", b ? "," : "", vqs_unit((double)((ssb[b] / jb->w[b]) / sstot), 1e-9));
+  BP("],\"nz\":[");
+  for(int b = 0; b < B; b++) BP("%s%d", b ? "," : "", ssb[b] > 0 ? 1 : 0);
+  BP("]}"); VRT_EMIT("%s", buf);
   VRT_EMIT("{\"e\":\"Oracle\",\"err\":%ld}", vq12(oerr));
 
   /* the model under test */
   CPCAMODEL *m; NewCPCAModel(&m);
+  mt_reset(); mt_np = jb->nproc; memset(it_count, 0, sizeof(it_count)); it_on = 1;
+  vrt_install_iter_budget(jb->budget, 0); libsci_verif_iter = iter_cb;
+  sl_on = 1;
   CPCA(x, scaling, (size_t)npc, m);
-  if((int)m->super_scores->col != npc || (int)m->super_scores->row != n || (int)m->super_weights->col != npc || (int)m->super_weights->row != B ||
-     (int)m->block_scores->order != npc || (int)m->block_loadings->order != B || (int)m->total_expvar->size != npc || (int)m->block_expvar->size != npc){
-    VRT_EMIT("{\"e\":\"Abort\",\"rc\":0,\"why\":\"model-shape\"}"); return 0;
-  }
-  matrix *ps; initMatrix(&ps); tensor *pb; initTensor(&pb);
+  it_on = 0; sl_on = 0; long calls = mt_calls;
+  if(!model_shape_ok(m, n, B, npc)){ VRT_EMIT("{\"e\":\"Abort\",\"rc\":0,\"why\":\"model-shape\"}"); return 0; }
+  /* projection of the training tensor, possibly into outputs that are already sized and hold other data */
+  matrix *ps; tensor *pb; initTensor(&pb);
+  if(jb->sized == 0) initMatrix(&ps);
+  else{ int rr = jb->sized == 1 ? n : jb->sized == 2 ? n + 3 : 2, cc2 = jb->sized == 1 ? npc : jb->sized == 2 ? npc + 2 : 1;
+    NewMatrix(&ps, (size_t)rr, (size_t)cc2); for(int i = 0; i < rr; i++) for(int j = 0; j < cc2; j++) ps->data[i][j] = 7.25 + i - 3 * j; }
   CPCAScorePredictor(x, m, (size_t)npc, ps, pb);
+  VRT_EMIT("{\"e\":\"Proj\",\"rows\":%d,\"cols\":%d,\"order\":%d,\"brows\":%d,\"bcols\":%d}", (int)ps->row, (int)ps->col, (int)pb->order,
+           pb->order ? (int)pb->m[0]->row : 0, pb->order ? (int)pb->m[0]->col : 0);
+  for(int pass = 0; pass < 2; pass++){
+    int req = pass == 0 ? 1 : npc + 3; if(pass == 0 && npc < 2) continue;
+    matrix *q; initMatrix(&q); tensor *qb; initTensor(&qb);
+    CPCAScorePredictor(x, m, (size_t)req, q, qb);
+    int got = (int)q->col < npc ? (int)q->col : npc; if((int)q->row != n) got = 0;
+    p = 0; BP("{\"e\":\"Proj2\",\"req\":%d,\"rows\":%d,\"cols\":%d,\"err\":[", req, (int)q->row, (int)q->col);
+    for(int k = 0; k < got; k++){ ld tt = 0, re = 0; for(int i = 0; i < n; i++){ ld a = m->super_scores->data[i][k], d = (ld)q->data[i][k] - a; tt += a * a; re += d * d; }
+      BP("%s%ld", k ? "," : "", vq9(tt > 0 ? sqrt((double)(re / tt)) : 1.0)); }
+    BP("]}"); VRT_EMIT("%s", buf);
+    DelMatrix(&q); DelTensor(&qb);
+  }
+  VRT_EMIT("{\"e\":\"Mt\",\"nproc\":%d,\"calls\":%ld}", jb->nproc, calls);
+  if(jb->nproc > 1) for(int len = 1; len <= MAXLEN; len++) if(sl_seen[len]){
+    p = 0; BP("{\"e\":\"Slices\",\"len\":%d,\"np\":%d,\"fr\":[", len, sl_cnt[len]);
+    for(int t = 0; t < sl_cnt[len]; t++) BP("%s%ld", t ? "," : "", sl_fr[len][t]);
+    BP("],\"to\":["); for(int t = 0; t < sl_cnt[len]; t++) BP("%s%ld", t ? "," : "", sl_to[len][t]);
+    BP("]}"); VRT_EMIT("%s", buf);
+  }
+  p = 0; BP("{\"e\":\"Iters\",\"its\":["); for(int k = 0; k < npc; k++) BP("%s%ld", k ? "," : "", it_count[k] > 2000000000L ? 2000000000L : it_count[k]); BP("]}"); VRT_EMIT("%s", buf);
   /* library PCA on the same concatenation (the comparison the property words) */
   matrix *Cm; NewMatrix(&Cm, (size_t)n, (size_t)M); for(int i = 0; i < n; i++) for(int j = 0; j < M; j++) Cm->data[i][j] = (double)C[i * M + j];
   PCAMODEL *pm; NewPCAModel(&pm); PCA(Cm, 0, (size_t)npc, pm, NULL);
+  int pcaok = ((int)pm->scores->row == n && (int)pm->scores->col >= npc && (int)pm->varexp->size >= npc);
   /* running block residuals E_b^(k) = E_b - sum_j t_j p_bj' */
   ld *R[MAXB]; for(int b = 0; b < B; b++){ R[b] = malloc(sizeof(ld) * n * jb->w[b]); for(int i = 0; i < n; i++) for(int j = 0; j < jb->w[b]; j++) R[b][i * jb->w[b] + j] = Eb[b]->data[i][j]; }
+  ld *RT[MAXB]; for(int b = 0; b < B; b++){ RT[b] = malloc(sizeof(ld) * n * jb->w[b]); for(int i = 0; i < n; i++) for(int j = 0; j < jb->w[b]; j++) RT[b][i * jb->w[b] + j] = Eb[b]->data[i][j]; }
   double *tcol = malloc(sizeof(double) * n); ld *tref = malloc(sizeof(ld) * n);
+  int projok = ((int)ps->row == n && (int)ps->col == npc), pbok = ((int)pb->order == npc);
   for(int k = 0; k < npc; k++){
     ld tt = 0; for(int i = 0; i < n; i++){ tcol[i] = m->super_scores->data[i][k]; tt += (ld)tcol[i] * tcol[i]; }
     /* super = block scores x super weights */
@@ -177,79 +385,159 @@ static int child(void *arg)
     for(int i = 0; i < n; i++){ ld v = 0; for(int b = 0; b < B; b++) v += (ld)m->block_scores->m[k]->data[i][b] * m->super_weights->data[b][k]; v -= tcol[i]; se += v * v; }
     double superErr = tt > 0 ? sqrt((double)(se / tt)) : 1.0;
     /* re-projection of the training tensor */
-    ld re = 0; if((int)ps->row != n || (int)ps->col != npc) re = tt; else for(int i = 0; i < n; i++){ ld d = (ld)ps->data[i][k] - tcol[i]; re += d * d; }
+    ld re = 0; if(!projok) re = tt; else for(int i = 0; i < n; i++){ ld d = (ld)ps->data[i][k] - tcol[i]; re += d * d; }
     double reproj = tt > 0 ? sqrt((double)(re / tt)) : 1.0;
+    ld rb = 0, tb2 = 0;
+    for(int i = 0; i < n; i++) for(int b = 0; b < B; b++){ ld a = m->block_scores->m[k]->data[i][b]; tb2 += a * a;
+      if(pbok && (int)pb->m[k]->row == n && (int)pb->m[k]->col == B){ ld d = (ld)pb->m[k]->data[i][b] - a; rb += d * d; } else rb += a * a; }
+    double reprojB = tb2 > 0 ? sqrt((double)(rb / tb2)) : 1.0;
     /* block explained variance recomputed from super scores and block loadings */
-    p = 0; p += snprintf(buf + p, sizeof(buf) - p, "{\"e\":\"Cpca\",\"k\":%d,\"totalVar\":%ld,\"blockVar\":[", k + 1, vqs_unit(m->total_expvar->data[k] / 100.0, 1e-9));
-    for(int b = 0; b < B; b++) p += snprintf(buf + p, sizeof(buf) - p, "%s%ld", b ? "," : "", vqs_unit(m->block_expvar->d[k]->data[b] / 100.0, 1e-9));
-    p += snprintf(buf + p, sizeof(buf) - p, "],\"blockRef\":[");
+    p = 0; BP("{\"e\":\"Cpca\",\"k\":%d,\"totalVar\":%ld,\"blockVar\":[", k + 1, vqs_unit(m->total_expvar->data[k] / 100.0, 1e-9));
+    for(int b = 0; b < B; b++) BP("%s%ld", b ? "," : "", vqs_unit(m->block_expvar->d[k]->data[b] / 100.0, 1e-9));
+    BP("],\"blockRef\":[");
     for(int b = 0; b < B; b++){
       ld rs = 0;
       for(int i = 0; i < n; i++) for(int j = 0; j < jb->w[b]; j++){ R[b][i * jb->w[b] + j] -= (ld)tcol[i] * m->block_loadings->m[b]->data[j][k]; rs += R[b][i * jb->w[b] + j] * R[b][i * jb->w[b] + j]; }
-      p += snprintf(buf + p, sizeof(buf) - p, "%s%ld", b ? "," : "", vqs_unit((double)(1 - rs / ssb[b]), 1e-9));
+      BP("%s%ld", b ? "," : "", ssb[b] > 0 ? vqs_unit((double)(1 - rs / ssb[b]), 1e-9) : 0L);
     }
-    p += snprintf(buf + p, sizeof(buf) - p, "],\"superErr\":%ld,\"wnorm\":%ld,\"reproj\":%ld}", vq12(superErr), vq12(fabs((double)sqrtl(wn) - 1.0)), vq9(reproj));
+    BP("],\"superErr\":%ld,\"wnorm\":%ld,\"reproj\":%ld,\"reprojB\":%ld}", vq12(superErr), vq12(fabs((double)sqrtl(wn) - 1.0)), vq9(reproj), vq9(reprojB));
     VRT_EMIT("%s", buf);
     /* truth */
     for(int i = 0; i < n; i++){ ld s = 0; for(int j = 0; j < M; j++) s += C[i * M + j] * W[j * M + k]; tref[i] = s; }
     double frac = (double)((lam[k] > 0 ? lam[k] : 0) / trace);
-    VRT_EMIT("{\"e\":\"Truth\",\"k\":%d,\"dist\":%ld,\"tvErr\":%ld}", k + 1, vq9(dist_pm(tcol, tref, n)), vq9(frac > 0 ? fabs(m->total_expvar->data[k] / 100.0 - frac) / frac : 2.0));
-    for(int i = 0; i < n; i++) tref[i] = pm->scores->data[i][k];
-    VRT_EMIT("{\"e\":\"PcaRef\",\"k\":%d,\"varexp\":%ld,\"dist\":%ld}", k + 1, vqs_unit(pm->varexp->data[k] / 100.0, 1e-9), vq9(dist_pm(tcol, tref, n)));
+    p = 0; BP("{\"e\":\"Truth\",\"k\":%d,\"dist\":%ld,\"tvErr\":%ld,\"blockTruth\":[", k + 1, vq9(dist_pm(tcol, tref, n)), vq9(frac > 0 ? fabs(m->total_expvar->data[k] / 100.0 - frac) / frac : 2.0));
+    { ld t2 = 0; for(int i = 0; i < n; i++) t2 += tref[i] * tref[i];
+      for(int b = 0; b < B; b++){ ld rs = 0;
+        for(int j = 0; j < jb->w[b]; j++){ ld c = 0; if(t2 > 0){ for(int i = 0; i < n; i++) c += tref[i] * RT[b][i * jb->w[b] + j]; c /= t2; }
+          for(int i = 0; i < n; i++){ RT[b][i * jb->w[b] + j] -= tref[i] * c; rs += RT[b][i * jb->w[b] + j] * RT[b][i * jb->w[b] + j]; } }
+        BP("%s%ld", b ? "," : "", ssb[b] > 0 ? vqs_unit((double)(1 - rs / ssb[b]), 1e-9) : 0L); } }
+    BP("]}"); VRT_EMIT("%s", buf);
+    for(int i = 0; i < n; i++) tref[i] = pcaok ? pm->scores->data[i][k] : 0;
+    VRT_EMIT("{\"e\":\"PcaRef\",\"k\":%d,\"varexp\":%ld,\"dist\":%ld}", k + 1, pcaok ? vqs_unit(pm->varexp->data[k] / 100.0, 1e-9) : -1L, vq9(dist_pm(tcol, tref, n)));
   }
   if(scaling == 0){ /* magnitude equivariance: the statement of the property does not depend on the unit of the data */
+    vrng rg; rg.s = (uint64_t)jb->mseed * 0x2545F4914F6CDD1DULL + 99u; for(int i = 0; i < 4; i++) vr_next(&rg);
     int kexp = (int)vr_int(&rg, 4, 27) * (vr_int(&rg, 0, 1) ? 1 : -1);
-    if(jb->dec + 0.30103 * kexp < -9.5) kexp = -kexp;      /* keep the rescaled data within 1e-9..1e15 */
-    if(jb->dec + 0.30103 * kexp > 14.0) kexp = -kexp;
+    int dlo = jb->dec, dhi = jb->dec + jb->off; for(int b = 0; b < B; b++){ if(jb->dec + jb->bm[b] < dlo) dlo = jb->dec + jb->bm[b]; if(jb->dec + jb->bm[b] + jb->off > dhi) dhi = jb->dec + jb->bm[b] + jb->off; }
+    if(dlo + 0.30103 * kexp < -9.5) kexp = -kexp;      /* keep the rescaled data within 1e-9..1e15 */
+    if(dhi + 0.30103 * kexp > 14.0) kexp = -kexp;
+    if(dlo + 0.30103 * kexp < -12.0) kexp = 4;
     double cf = ldexp(1.0, kexp);
     tensor *x2; NewTensor(&x2, (size_t)B);
     for(int b = 0; b < B; b++){ NewTensorMatrix(x2, (size_t)b, (size_t)n, (size_t)jb->w[b]); for(int i = 0; i < n; i++) for(int j = 0; j < jb->w[b]; j++) x2->m[b]->data[i][j] = cf * x->m[b]->data[i][j]; }
+    int hit = 0; for(int b = 0; b < B; b++) for(int i = 0; i < n; i++) for(int j = 0; j < jb->w[b]; j++) if(fabs(x2->m[b]->data[i][j] - 99999999.0) < 1.0) hit = 1;
+    if(!hit){
     CPCAMODEL *m2; NewCPCAModel(&m2);
     CPCA(x2, scaling, (size_t)npc, m2);
-    p = 0; p += snprintf(buf + p, sizeof(buf) - p, "{\"e\":\"Scale\",\"kexp\":%d,\"terr\":[", kexp);
-    int okshape = ((int)m2->super_scores->col == npc && (int)m2->super_scores->row == n && (int)m2->total_expvar->size == npc && (int)m2->block_expvar->size == npc);
-    for(int k = 0; k < npc; k++){
-      double e = 2.0;
-      if(okshape){ ld na = 0, nb2 = 0; for(int i = 0; i < n; i++){ na += (ld)m->super_scores->data[i][k] * m->super_scores->data[i][k]; nb2 += (ld)m2->super_scores->data[i][k] * m2->super_scores->data[i][k]; }
-        if(na > 0 && nb2 > 0){ na = sqrtl(na); nb2 = sqrtl(nb2); ld dp = 0, dm = 0; for(int i = 0; i < n; i++){ ld a = m->super_scores->data[i][k] / na, b2 = m2->super_scores->data[i][k] / nb2; dp += (a - b2) * (a - b2); dm += (a + b2) * (a + b2); } e = sqrt((double)(dp < dm ? dp : dm)); } }
-      p += snprintf(buf + p, sizeof(buf) - p, "%s%ld", k ? "," : "", vq9(e));
+    p = 0; BP("{\"e\":\"Scale\",\"kexp\":%d,\"terr\":[", kexp);
+    int okshape = model_shape_ok(m2, n, B, npc);
+    for(int k = 0; k < npc; k++) BP("%s%ld", k ? "," : "", vq9(okshape ? dist_norm(m->super_scores, m2->super_scores, k, n) : 2.0));
+    BP("],\"verr\":[");
+    for(int k = 0; k < npc; k++){ double a = m->total_expvar->data[k], e = (okshape && a > 0) ? fabs(m2->total_expvar->data[k] - a) / a : 2.0; BP("%s%ld", k ? "," : "", vq9(e)); }
+    BP("],\"berr\":[");
+    for(int k = 0; k < npc; k++){ double e = 0; for(int b = 0; b < B; b++){ double d = okshape ? fabs(m2->block_expvar->d[k]->data[b] - m->block_expvar->d[k]->data[b]) / 100.0 : 2.0; if(!(d <= e)) e = d; } BP("%s%ld", k ? "," : "", vq9(e)); }
+    BP("]}");
+    VRT_EMIT("%s", buf);
+    DelCPCAModel(&m2);
     }
-    p += snprintf(buf + p, sizeof(buf) - p, "],\"verr\":[");
-    for(int k = 0; k < npc; k++){ double a = m->total_expvar->data[k], e = (okshape && a > 0) ? fabs(m2->total_expvar->data[k] - a) / a : 2.0; p += snprintf(buf + p, sizeof(buf) - p, "%s%ld", k ? "," : "", vq9(e)); }
-    p += snprintf(buf + p, sizeof(buf) - p, "],\"berr\":[");
-    for(int k = 0; k < npc; k++){ double e = 0; for(int b = 0; b < B; b++){ double d = okshape ? fabs(m2->block_expvar->d[k]->data[b] - m->block_expvar->d[k]->data[b]) / 100.0 : 2.0; if(!(d <= e)) e = d; } p += snprintf(buf + p, sizeof(buf) - p, "%s%ld", k ? "," : "", vq9(e)); }
-    p += snprintf(buf + p, sizeof(buf) - p, "]}");
+    DelTensor(&x2);
+  }
+  if(jb->hist){ /* one more foreign fit, then the same data again into a fresh model */
+    warmup(jb, 3);
+    CPCAMODEL *m3; NewCPCAModel(&m3);
+    vrt_install_iter_budget(jb->budget, 0); libsci_verif_iter = iter_cb;
+    CPCA(x, scaling, (size_t)npc, m3);
+    int okshape = model_shape_ok(m3, n, B, npc);
+    p = 0; BP("{\"e\":\"Again\",\"terr\":[");
+    for(int k = 0; k < npc; k++) BP("%s%ld", k ? "," : "", vq9(okshape ? dist_norm(m->super_scores, m3->super_scores, k, n) : 2.0));
+    BP("],\"verr\":[");
+    for(int k = 0; k < npc; k++){ double a = m->total_expvar->data[k], e = (okshape && a > 0) ? fabs(m3->total_expvar->data[k] - a) / a : 2.0; BP("%s%ld", k ? "," : "", vq9(e)); }
+    BP("],\"bit\":%d}", okshape ? bitwise_same(m, m3, n, B, npc, jb->w) : 0);
     VRT_EMIT("%s", buf);
   }
   return 0;
 }
 
+/* refit mode: CPCA() twice into the same model object (the second time on other data of the same shape, then compared with a fresh fit of that data) */
+static int child_refit(void *arg)
+{
+  cjob *jb = (cjob *)arg; int n = jb->n, B = jb->B, npc = jb->npc;
+  vrt_force_nproc((size_t)jb->nproc);
+  vrt_install_iter_budget(jb->budget, 0);
+  dinfo di, d2; cjob j2 = *jb; j2.mseed = (jb->mseed + 104729L) & 0x3FFFFFFF;
+  tensor *x1 = build_data(jb, &di), *x2 = build_data(&j2, &d2);
+  if(di.infeasible || d2.infeasible){ VRT_EMIT("{\"e\":\"Dropped\",\"why\":\"class-infeasible-for-shape\"}"); return 0; }
+  CPCAMODEL *fresh; NewCPCAModel(&fresh); CPCA(x2, jb->scaling, (size_t)npc, fresh);
+  CPCAMODEL *m; NewCPCAModel(&m); CPCA(x1, jb->scaling, (size_t)npc, m);
+  vrt_install_iter_budget(jb->budget, 0);
+  CPCA(x2, jb->scaling, (size_t)npc, m);
+  int ok = model_shape_ok(m, n, B, npc) && model_shape_ok(fresh, n, B, npc) && (int)m->scaling_factor->size == B && (int)m->colaverage->size == B;
+  int p = 0; BP("{\"e\":\"Refit\",\"shape\":%d,\"terr\":[", ok);
+  for(int k = 0; k < npc; k++) BP("%s%ld", k ? "," : "", vq9(ok ? dist_norm(fresh->super_scores, m->super_scores, k, n) : 2.0));
+  BP("],\"verr\":[");
+  for(int k = 0; k < npc; k++){ double a = fresh->total_expvar->data[k], e = (ok && a > 0) ? fabs(m->total_expvar->data[k] - a) / a : 2.0; BP("%s%ld", k ? "," : "", vq9(e)); }
+  BP("],\"berr\":[");
+  for(int k = 0; k < npc; k++){ double e = 0; for(int b = 0; b < B; b++){ double d = ok ? fabs(m->block_expvar->d[k]->data[b] - fresh->block_expvar->d[k]->data[b]) / 100.0 : 2.0; if(!(d <= e)) e = d; } BP("%s%ld", k ? "," : "", vq9(e)); }
+  BP("]}"); VRT_EMIT("%s", buf);
+  return 0;
+}
+
 static long n_ok = 0, n_abort = 0;
-static void run_model(cjob *jb)
+static void run_model(cjob *jb, int refit)
 {
   VRT_EMIT("{\"e\":\"Reset\"}");
   int diffw = 0; for(int b = 1; b < jb->B; b++) if(jb->w[b] != jb->w[0]) diffw = 1;
-  static char buf[512]; int p = 0;
-  p += snprintf(buf + p, sizeof(buf) - p, "{\"e\":\"Fit\",\"seed\":%ld,\"n\":%d,\"blocks\":%d,\"widths\":[", jb->mseed, jb->n, jb->B);
-  for(int b = 0; b < jb->B; b++) p += snprintf(buf + p, sizeof(buf) - p, "%s%d", b ? "," : "", jb->w[b]);
-  p += snprintf(buf + p, sizeof(buf) - p, "],\"scaling\":%d,\"npc\":%d,\"dec\":%d,\"nproc\":%d,\"diffw\":%d}", jb->scaling, jb->npc, jb->dec, jb->nproc, diffw);
+  int p = 0;
+  BP("{\"e\":\"Fit\",\"seed\":%ld,\"n\":%d,\"blocks\":%d,\"widths\":[", jb->mseed, jb->n, jb->B);
+  for(int b = 0; b < jb->B; b++) BP("%s%d", b ? "," : "", jb->w[b]);
+  BP("],\"scaling\":%d,\"npc\":%d,\"dec\":%d,\"nproc\":%d,\"diffw\":%d,\"cc\":%d,\"off\":%d,\"bm\":[", jb->scaling, jb->npc, jb->dec, jb->nproc, diffw, jb->cc, jb->off);
+  for(int b = 0; b < jb->B; b++) BP("%s%d", b ? "," : "", jb->bm[b]);
+  BP("],\"hist\":%d,\"sized\":%d,\"deg\":%d}", jb->hist, jb->sized, jb->deg);
   VRT_EMIT("%s", buf);
-  int rc = vrt_run_child(child, jb, 900);
+  int rc = vrt_run_child(refit ? child_refit : child, jb, 900);
   fseek(vrt_out, 0, SEEK_END);
   if(rc != 0){ VRT_EMIT("{\"e\":\"Abort\",\"rc\":%d,\"why\":\"%s\"}", rc, rc == 97 ? "iteration-budget" : rc == 124 ? "watchdog" : rc >= 1000 ? "signal" : "exit"); n_abort++; }
   else n_ok++;
+}
+
+/* "mseed n scaling npc dec nproc B w.. [cc off bm.. hist sized deg]" */
+static int parse_job(cjob *jb, int argc, char **argv)
+{
+  if(argc < 7) return 0;
+  jb->mseed = atol(argv[0]); jb->n = atoi(argv[1]); jb->scaling = atoi(argv[2]); jb->npc = atoi(argv[3]); jb->dec = atoi(argv[4]); jb->nproc = atoi(argv[5]); jb->B = atoi(argv[6]);
+  jb->cc = jb->off = jb->hist = jb->sized = jb->deg = 0; for(int b = 0; b < MAXB; b++) jb->bm[b] = 0;
+  if(jb->B < 2 || jb->B > MAXB || argc < 7 + jb->B) return 0;
+  for(int b = 0; b < jb->B; b++){ jb->w[b] = atoi(argv[7 + b]); if(jb->w[b] < 1 || jb->w[b] > MAXW) return 0; }
+  if(jb->n < 2 || jb->n > 64 || jb->npc < 1 || jb->nproc < 1 || jb->nproc > 32) return 0;
+  int a = 7 + jb->B;
+  if(argc >= a + 2 + jb->B + 3){
+    jb->cc = atoi(argv[a]); jb->off = atoi(argv[a + 1]);
+    for(int b = 0; b < jb->B; b++) jb->bm[b] = atoi(argv[a + 2 + b]);
+    jb->hist = atoi(argv[a + 2 + jb->B]); jb->sized = atoi(argv[a + 3 + jb->B]); jb->deg = atoi(argv[a + 4 + jb->B]);
+    if(jb->cc < 0 || jb->cc > 7 || jb->off < 0 || jb->off > 8 || jb->sized < 0 || jb->sized > 3 || jb->deg < 0 || jb->deg > 3) return 0;
+  }
+  return 1;
 }
 
 int main(int argc, char **argv)
 {
   if(argc < 4){ fprintf(stderr, "usage\n"); return 2; }
   vrt_open(argv[1]);
-  cjob jb; jb.budget = getenv("C09_ITER_BUDGET") ? atol(getenv("C09_ITER_BUDGET")) : 40000;
-  if(!strcmp(argv[2], "one") && argc >= 10){
-    jb.mseed = atol(argv[3]); jb.n = atoi(argv[4]); jb.scaling = atoi(argv[5]); jb.npc = atoi(argv[6]); jb.dec = atoi(argv[7]); jb.nproc = atoi(argv[8]); jb.B = atoi(argv[9]);
-    if(jb.B < 2 || jb.B > MAXB || argc < 10 + jb.B){ fprintf(stderr, "bad blocks\n"); return 2; }
-    for(int b = 0; b < jb.B; b++) jb.w[b] = atoi(argv[10 + b]);
-    run_model(&jb);
+  cjob jb; memset(&jb, 0, sizeof(jb)); jb.budget = getenv("C09_ITER_BUDGET") ? atol(getenv("C09_ITER_BUDGET")) : 40000;
+  if((!strcmp(argv[2], "one") || !strcmp(argv[2], "job")) && argc >= 10){
+    if(!parse_job(&jb, argc - 3, argv + 3)){ fprintf(stderr, "bad job\n"); return 2; }
+    run_model(&jb, 0);
+  }
+  else if(!strcmp(argv[2], "jobs") || !strcmp(argv[2], "refit")){
+    FILE *f = fopen(argv[3], "r"); if(!f){ perror(argv[3]); return 2; }
+    static char line[1024]; char *tok[64];
+    while(fgets(line, sizeof(line), f)){
+      int nt = 0; for(char *t = strtok(line, " \t\r\n"); t && nt < 64; t = strtok(NULL, " \t\r\n")) tok[nt++] = t;
+      if(nt == 0) continue;
+      if(!parse_job(&jb, nt, tok)){ fprintf(stderr, "bad job line\n"); return 2; }
+      run_model(&jb, !strcmp(argv[2], "refit"));
+    }
+    fclose(f);
   }
   else if(!strcmp(argv[2], "sweep") && argc >= 6){
     vrng r; r.s = (uint64_t)atol(argv[3]) * 2654435761u + 31337;
@@ -262,7 +550,7 @@ int main(int argc, char **argv)
       jb.npc = (int)vr_int(&r, 1, minw); if(jb.npc > jb.n - 1) jb.npc = jb.n - 1;
       jb.dec = jb.scaling == 0 ? (int)vr_int(&r, -8, 6) : (int)vr_int(&r, 0, 3);
       jb.mseed = (long)(vr_next(&r) & 0x3FFFFFFF);
-      run_model(&jb);
+      run_model(&jb, 0);
     }
   }
   else { fprintf(stderr, "bad arguments\n"); return 2; }
